@@ -37,7 +37,7 @@ func (world) Level() string    { return "exploration" }
 
 func (world) Describe() super.Description {
 	return super.Description{
-		Rule:        "A case = one base text (a tape-generated valid module or submodule rendered with lexical variety: unquoted/single/double-quoted/'+'-concatenated arguments, comments between tokens, CRLF, tabs; or an ill-formed module; or a raw byte/token string) and one fault operator applied to it: none; truncation at EVERY byte offset (exhaustive for that text, up to 1500 bytes, else a drawn window); 1..3 byte flips/inserts/deletes; token drop/duplicate/swap; trailing garbage after the final '}'; an early statement that fails its check; or a sequence of 2..4 parses sharing one pair of interners. All parses of a case run inside one synctest bubble. distinct_nontrivial = distinct non-empty input texts actually parsed (hash of the bytes).",
+		Rule:        "A case = one base text (a tape-generated valid module or submodule rendered with lexical variety: unquoted/single/double-quoted/'+'-concatenated arguments, comments between tokens, CRLF, tabs; or an ill-formed module; or a structurally damaged module — one or two whole statements dropped, duplicated, moved into another block or swapped, a keyword replaced, an argument removed/added/garbled, the text staying lexically well-formed; or a raw byte/token string) and one fault operator applied to it: none; truncation at EVERY byte offset (exhaustive for that text, up to 1500 bytes, else a drawn window); 1..3 byte flips/inserts/deletes; token drop/duplicate/swap; trailing garbage after the final '}'; an early statement that fails its check; or a sequence of 2..4 parses sharing one pair of interners. All parses of a case run inside one synctest bubble. distinct_nontrivial = distinct non-empty input texts actually parsed (hash of the bytes).",
 		DistinctSet: "texts",
 		Assumptions: []string{
 			"testing/synctest (go1.26.8): Wait() returns only when every other goroutine of the bubble is durably blocked or gone; a goroutine count that stays above the pre-call count after Wait() is a goroutine that will never finish",
@@ -49,7 +49,7 @@ func (world) Describe() super.Description {
 			"real": []string{"parse (lex.go goroutine+channel, parse.go, ast/arg/cardinality checks, symbol tables)"},
 			"stub": []string{"none (the text is the only other party); NodeCardinality callback for extensions is nil or a two-entry table"},
 		},
-		FaultKinds: []string{"truncate", "byte-flip", "byte-insert", "byte-delete", "token-drop", "token-dup", "token-swap", "trailing-garbage", "early-check-failure", "shared-interner-sequence"},
+		FaultKinds: []string{"structure:stmt-drop", "structure:stmt-dup", "structure:stmt-move", "structure:stmt-swap", "structure:keyword", "structure:arg-toggle", "structure:arg-garble", "truncate", "byte-flip", "byte-insert", "byte-delete", "token-drop", "token-dup", "token-swap", "trailing-garbage", "early-check-failure", "shared-interner-sequence"},
 	}
 }
 
@@ -356,17 +356,36 @@ func (w world) RunCase(t *tape.Tape, st *super.Stats) *super.Violation {
 	}
 	// base text
 	var base string
-	kind := t.Pick(6, 2, 1)
+	kind := t.Pick(6, 2, 1, 4)
 	switch kind {
-	case 0, 1:
+	case 0, 1, 3:
 		set := genyang.GenerateSet(t, kind == 1)
 		m := set.Mods[t.Draw(len(set.Mods))]
-		if t.Draw(4) == 3 {
-			base = m.Root.Text()
-		} else {
-			base = m.Root.Styled(t)
+		root := m.Root
+		if kind == 3 {
+			// statement-level damage: the text stays well-formed, the statement rules break
+			n := 1 + t.Draw(2)
+			for i := 0; i < n; i++ {
+				var what string
+				root, what = root.DamageStructure(t)
+				inc("fault:structure:" + strings.SplitN(what, ":", 2)[0])
+			}
 		}
-		inc([]string{"base:valid_module", "base:ill_formed_module"}[kind])
+		if root.Kw == "submodule" && root.Find("belongs-to") == nil {
+			inc("reach:submodule_without_belongs_to")
+			if root.Find("import") != nil {
+				inc("reach:submodule_without_belongs_to_with_import")
+			}
+		}
+		if root.Kw == "module" && (root.Find("namespace") == nil || root.Find("prefix") == nil) {
+			inc("reach:module_without_namespace_or_prefix")
+		}
+		if t.Draw(4) == 3 {
+			base = root.Text()
+		} else {
+			base = root.Styled(t)
+		}
+		inc([]string{"base:valid_module", "base:ill_formed_module", "", "base:structurally_damaged_module"}[kind])
 	case 2:
 		var b []byte
 		for n := t.Draw(40); n > 0; n-- {
@@ -499,8 +518,8 @@ func TestWorld(t *testing.T) {
 	super.Main(world{t}, super.Config{
 		QuickCases:       400,
 		ThoroughSeconds:  900,
-		CaseTimeout:      15e9,
-		WatchdogTimeout:  4e9,
+		CaseTimeout:      40e9,
+		WatchdogTimeout:  10e9,
 		MinimiseBudget:   400,
 		Procs:            16,
 		CrashIsViolation: true,
